@@ -396,6 +396,14 @@ def r9(ctx, facts):
                 continue
             if c.bb in (b.reachable_from(inside) | {inside}) and c.bb not in (b.reachable_from(outside, removed_nodes=[sw]) | {outside}):
                 guarded = True
+        if not guarded:
+            # ... or the access happens only where `conns.get(i)` / `get_mut(i)` with the same index is known to have found the bucket
+            dj9 = dj_of(b, facts)
+            lookups = [g for bbg, g in b.calls() if bbg in b.live_blocks and (g.decl or g.name or "").split("::")[-1] in ("get", "get_mut") and len(g.args) == 2
+                       and "conns" in _fields(b, g.args[0]) and g.args[1][0] in ("c", "m") and ((backward_slice(b, g.args[1])[0] | {g.args[1][1][0]}) & i_locs)]
+            sts = dj9.states_at(c.bb)
+            if lookups and sts and all(any(in_set(x.get(("disc", dj9.disc_root(dj9.canon.path(g.dest)))), {1}) or in_set(x.get(("disc", (g.dest[0], ()))), {1}) for g in lookups) for x in sts):
+                guarded = True
         r.instance("bucket-access-is-bounds-guarded#%d" % k, guarded,
                    "`conns[shard]` is indexed with the shard id the connection reported when it was opened, without `shard < conns.len()`: after a reshard to "
                    "fewer shards the late error of an old connection panics the refiller task", c.span)
